@@ -117,7 +117,12 @@ impl Request {
     //@|   final(self).path_and_query_skipped == old(self).path_and_query_skipped, final(self).path_and_query == old(self).path_and_query,
     //@|   final(self).host == old(self).host, final(self).scheme == old(self).scheme, final(self).method == old(self).method,
     //@|   final(self).remote_addr == old(self).remote_addr, final(self).created_at == old(self).created_at, final(self).sampling_override == old(self).sampling_override,
-    #[verifier::external_body] pub fn set_created_at(&mut self, created_at: Option<String>) { unimplemented!() }
+    // ASSUMED frame (chrono parsing is not under contract): only created_at is touched
+    #[verifier::external_body] pub fn set_created_at(&mut self, created_at: Option<String>)
+        ensures final(self).headers == old(self).headers, final(self).path_and_query_skipped == old(self).path_and_query_skipped, final(self).path_and_query == old(self).path_and_query,
+            final(self).host == old(self).host, final(self).scheme == old(self).scheme, final(self).method == old(self).method, final(self).remote_addr == old(self).remote_addr,
+            final(self).sampling_override == old(self).sampling_override,
+    { unimplemented!() }
     //@@ fn src/http/request.rs :: impl Request / fn from_config -> r
     //@| ensures r.path_and_query_skipped == pq_from_config(*config, path_and_query@), r.path_and_query == Some(path_and_query),
     //@|   opt_lower(config.ignore_host_case, host, r.host), r.scheme == scheme, r.method == method, r.remote_addr == remote_addr,
@@ -132,8 +137,27 @@ impl Request {
     //@| loophead 0: let ghost h0 = headers@; proof { assert(*header == request.headers@[it.index@ as int]); }
     //@| looptail 0: proof { let k = it.index@ as int; assert(headers@ =~= h0.push(headers@.last())); assert(request.headers@.take(k + 1) =~= request.headers@.take(k).push(request.headers@[k])); }
     //@| loopend 0: proof { assert(request.headers@.take(request.headers@.len() as int) =~= request.headers@); }
+    // C19 / C09: the request an analysis builds from an example is ALREADY normalised under the router configuration, as the live pipeline's
+    // request is after the router rebuilt it: rebuilding it changes nothing the matchers read (path and query, host case, header value case)
     //@@ fn src/http/request.rs :: impl Request / fn from_example -> r
-    //@| ensures true,
+    //@| ensures r matches Ok(q) ==> forall|q2: Request| #[trigger] rebuilt(*router_config, q, q2) ==> same_request(q, q2),
+    //@| opt r6i:0
+    //@| forlabel 0: it
+    //@| attr #[verifier::loop_isolation(false)]
+    //@| entry broadcast use axiom_lower_idem;
+    //@| loopbefore 0: let ghost q0 = request; let ghost flag = router_config.ignore_header_case;
+    //@| loop 0: invariant request.path_and_query_skipped == q0.path_and_query_skipped, request.path_and_query == q0.path_and_query, request.host == q0.host, request.scheme == q0.scheme,
+    //@|         request.method == q0.method, request.remote_addr == q0.remote_addr, request.created_at == q0.created_at, request.sampling_override == q0.sampling_override,
+    //@|         forall|i: int| 0 <= i < request.headers@.len() ==> (flag ==> lower((#[trigger] request.headers@[i]).value@) == request.headers@[i].value@),
+    //@| loophead 0: let ghost h0 = request.headers@;
+    //@| looptail 0: proof { assert forall|i: int| 0 <= i < request.headers@.len() implies (flag ==> lower((#[trigger] request.headers@[i]).value@) == request.headers@[i].value@) by { if i < h0.len() { assert(request.headers@[i] == request.headers@.drop_last()[i]); } } }
+    //@| exit proof {
+    //@|     if vf_ret is Ok { let q = vf_ret->Ok_0;
+    //@|         assert forall|q2: Request| #[trigger] rebuilt(*router_config, q, q2) implies same_request(q, q2) by {
+    //@|             assert forall|i: int| 0 <= i < q.headers@.len() implies hdr_norm(false, #[trigger] q.headers@[i], q2.headers@[i]) by { assert(hdr_norm(router_config.ignore_header_case, q.headers@[i], q2.headers@[i])); }
+    //@|         }
+    //@|     }
+    //@| }
     //@| closure `|s|`#0 => `|s: &http::Authority| -> (vf_r: String)`
     //@| closure `|s|`#1 => `|s: &str| -> (vf_r: String)`
 }
